@@ -1305,7 +1305,7 @@ impl Prop for C01 {
         "C01"
     }
     fn rule(&self) -> &'static str {
-        "section sets that are (10%) random byte strings in 1-5 randomly named sections, (20%) well-formed, or (70%) well-formed and then mutated by 0-5 operations (byte overwrite, overwrite/insert of extreme LEB128/length/count patterns, truncation, splice from another section, in-place repetition of a range up to 40 times, section swap, replacement by random bytes). Well-formed material: assembler-built multi-unit .debug_info with all side tables (fullasm), line programs using every opcode, .debug_frame/.eh_frame with every instruction, plus small .debug_aranges/.debug_pubnames/.debug_pubtypes/.debug_macinfo/.debug_macro/.debug_cu_index/.debug_tu_index/.debug_names/.eh_frame_hdr tables; both byte orders, address sizes 1/2/4/8. Every case drives every public reading entry point (unit headers, units, three entry traversals, raw entries, trees, every attribute accessor and Dwarf-level resolver, range/location lists raw and cooked, line instructions/rows/sequences, macro iterators, string/address/offset tables, aranges, pubnames/pubtypes, .debug_names lookups, package indexes, CIE/FDE parsing, CFI instructions, unwind rows and address lookups, .eh_frame_hdr table), the expression decoder and evaluator with canned answers to every request kind, and Dwarf::from / FrameTable::from followed by writing. Oracle: no panic (incl. arithmetic overflow and debug assertions in the dev profile), no abort/stack overflow/hang (worker exit status and watchdog), every lazy iterator ends within 8 x total input size + 256 steps when errors are ignored, and nothing is yielded after an iterator has reported an error. 60% of cases additionally sweep truncation points of one section (every byte up to 48, strided beyond) and 60% sweep the operation at which a fault-injecting Reader fails. Non-trivial = at least one error was returned and more than 50 steps were taken; distinct by choice string."
+        "section sets that are (10%) random byte strings in 1-5 randomly named sections, (20%) well-formed, or (70%) well-formed and then mutated by 0-5 operations (byte overwrite, overwrite/insert of extreme LEB128/length/count patterns, truncation, splice from another section, in-place repetition of a range up to 40 times, section swap, replacement by random bytes). Well-formed material: assembler-built multi-unit .debug_info with all side tables (fullasm), line programs using every opcode, .debug_frame/.eh_frame with every instruction, plus small .debug_aranges/.debug_pubnames/.debug_pubtypes/.debug_macinfo/.debug_macro/.debug_cu_index/.debug_tu_index/.debug_names/.eh_frame_hdr tables; both byte orders, address sizes 1/2/4/8. Every case drives every public reading entry point (unit headers, units, three entry traversals, raw entries, trees, every attribute accessor and Dwarf-level resolver, range/location lists raw and cooked, line instructions/rows/sequences, macro iterators, string/address/offset tables, aranges, pubnames/pubtypes, .debug_names lookups, package indexes, CIE/FDE parsing, CFI instructions, unwind rows and address lookups, .eh_frame_hdr table), the expression decoder and evaluator with canned answers to every request kind, and Dwarf::from / FrameTable::from followed by writing. Oracle: no panic (incl. arithmetic overflow and debug assertions in the dev profile), no abort/stack overflow/hang (worker exit status and watchdog), every lazy iterator ends within 8 x total input size + 256 steps when errors are ignored, and nothing is yielded after an iterator has reported an error. 60% of cases additionally sweep truncation points of one section (every byte up to 48, strided beyond) and 60% sweep the operation at which a fault-injecting Reader fails. Non-trivial = at least one error was returned and more than 50 steps were taken; distinct by choice string. Later additions: the filtered conversion (FilterUnitSection, convert_with_filter, write) among the entry points; deep inputs with a range list made of a long run of skipped entries; eight-byte unit references of later units set next to 2^64; line programs with operation advances next to 2^64."
     }
     fn assumptions(&self) -> Vec<&'static str> {
         vec![
